@@ -324,6 +324,10 @@ def run_property(pid, tier, only=None, jobs=None, seed=0, verbose=True):
                 if len(agg["cex"]) > 200 or len(inconclusive) > 20:
                     break
                 time.sleep(0.01)
+            if os.environ.get("SX_PROFILE"):
+                # sizing aid: paths per variant (sum over outcome classes), heaviest first
+                sizes = sorted(((sum(c.values()), vidx) for vidx, c in enumerate(per_variant_classes)), reverse=True)
+                print("[profile %s] %s" % (h.hid, " ".join("v%d:%d" % (vidx, n) for n, vidx in sizes[:40])), flush=True)
             # vacuity: expected classes reached in every variant
             for vidx, var in enumerate(variants):
                 missing = set(h.expected_classes(var)) - set(per_variant_classes[vidx])
